@@ -22,7 +22,7 @@ from .C10 import toeplitz_apply
 F = Fraction
 META = {
     "level": "other",
-    "functions": ["spectrum.yulewalker.aryule", "spectrum.yulewalker.pyule.__call__", "spectrum.correlation.CORRELATION",
+    "functions": ["spectrum.lpc.lpc", "spectrum.tools.nextpow2", "spectrum.yulewalker.pyule.__init__", "spectrum.yulewalker.aryule", "spectrum.yulewalker.pyule.__call__", "spectrum.correlation.CORRELATION",
                   "spectrum.levinson.LEVINSON", "spectrum.linalg.corrmtx"],
     "assumptions": ["A-REAL", "normal-eq / gram: bounded in size (N <= 5, p <= 2 quick; N <= 6, p <= 3 thorough), all values",
                     "reflection coefficients of modulus < 1 and P > 0 for non-zero data: r^ is positive definite by the Gram identity "
